@@ -222,6 +222,46 @@ def render_texts(case):
     return res
 
 
+def render_mixed(case):
+    """case: {'html': ...}: a paginated document whose ::before/::after/::marker content mixes element counters with
+    page-based counters and target-*().  Returns the generated texts with their page, the pages of every element
+    with an id, the number of pages and of passes of the re-layout loop."""
+    import inspect
+    from tests.testing_utils import FakeHTML, BASE_URL
+    from weasyprint import layout as layout_mod
+    max_loops = inspect.signature(layout_mod.layout_document).parameters['max_loops'].default
+    orig_make = layout_mod.make_all_pages
+    calls = {'n': 0}
+
+    def counting_make(*a, **k):
+        calls['n'] += 1
+        return orig_make(*a, **k)
+    layout_mod.make_all_pages = counting_make
+    try:
+        doc = FakeHTML(string=case['html'], base_url=BASE_URL).render()
+    finally:
+        layout_mod.make_all_pages = orig_make
+    texts, elements = [], {}
+    for pi, page in enumerate(doc.pages, 1):
+        def walk(box):
+            tag = getattr(box, 'element_tag', '') or ''
+            el = getattr(box, 'element', None)
+            for kind in ('before', 'after', 'marker'):
+                if tag.endswith('::' + kind):
+                    t = []
+                    _texts(box, t)
+                    texts.append([pi, el.get('id') if el is not None else None, kind, ''.join(t)])
+                    return
+            if el is not None and '::' not in tag and el.get('id'):
+                pages = elements.setdefault(el.get('id'), [])
+                if pi not in pages:
+                    pages.append(pi)
+            for c in getattr(box, 'children', ()) or ():
+                walk(c)
+        walk(page._page_box)
+    return {'texts': texts, 'elements': elements, 'pages': len(doc.pages), 'loops': calls['n'], 'max_loops': max_loops}
+
+
 def render_toc(case):
     """case: {'html': ...}: links `a.t` print target-counter(attr(href), page) in ::after; targets are elements whose
     id starts with 't'.  make_all_pages is wrapped to count the passes of the re-layout loop of layout_document.
